@@ -10,14 +10,14 @@ package boson
 
 //@ func Proximity
 //@   property C20
-//@   note addresses long enough for the cap to be reachable (the statement caps at MaxPO)
-//@   requires len(one) == len(other) && 8*len(one) > 31
+//@   note the functional clauses are stated for equal-length addresses long enough for the cap to be reachable (the statement caps at MaxPO); the cap itself and memory safety hold for all inputs
+//@   let eq = len(one) == len(other) && 8*len(one) > 31
 //@   ensures cap: int(ret) <= 31
-//@   ensures prefix-equal: forall p :: 0 <= p && p < int(ret) ==> !xbit(one, other, p)
-//@   ensures first-diff: int(ret) < 31 ==> xbit(one, other, int(ret))
+//@   ensures prefix-equal: eq ==> forall p :: 0 <= p && p < int(ret) ==> !xbit(one, other, p)
+//@   ensures first-diff: eq && int(ret) < 31 ==> xbit(one, other, int(ret))
 //@   assigns nothing
-//@   loop 1 invariant 0 <= int(i) && int(i) <= int(b) && int(b) == 4 && int(m) == 8
-//@   loop 1 invariant forall p :: 0 <= p && p < 8*int(i) ==> !xbit(one, other, p)
+//@   loop 1 invariant 0 <= int(i) && int(i) <= int(b) && int(b) <= 4 && int(b) <= len(one) && int(b) <= len(other) && (eq ==> int(b) == 4) && int(m) == 8
+//@   loop 1 invariant eq ==> forall p :: 0 <= p && p < 8*int(i) ==> !xbit(one, other, p)
 //@   loop 1 decreases int(b) - int(i)
 //@   loop 2 unroll 8
 
@@ -52,12 +52,12 @@ package boson
 
 //@ func ExtendedProximity
 //@   property C20
-//@   requires len(one) == len(other) && 8*len(one) > 36
+//@   let eq = len(one) == len(other) && 8*len(one) > 36
 //@   ensures cap: int(ret) <= 36
-//@   ensures prefix-equal: forall p :: 0 <= p && p < int(ret) ==> !xbit(one, other, p)
-//@   ensures first-diff: int(ret) < 36 ==> xbit(one, other, int(ret))
+//@   ensures prefix-equal: eq ==> forall p :: 0 <= p && p < int(ret) ==> !xbit(one, other, p)
+//@   ensures first-diff: eq && int(ret) < 36 ==> xbit(one, other, int(ret))
 //@   assigns nothing
-//@   loop 1 invariant 0 <= int(i) && int(i) <= int(b) && int(b) == 5 && int(m) == 8
-//@   loop 1 invariant forall p :: 0 <= p && p < 8*int(i) ==> !xbit(one, other, p)
+//@   loop 1 invariant 0 <= int(i) && int(i) <= int(b) && int(b) <= 5 && int(b) <= len(one) && int(b) <= len(other) && (eq ==> int(b) == 5) && int(m) == 8
+//@   loop 1 invariant eq ==> forall p :: 0 <= p && p < 8*int(i) ==> !xbit(one, other, p)
 //@   loop 1 decreases int(b) - int(i)
 //@   loop 2 unroll 8
